@@ -12,6 +12,7 @@ macro_rules! dispatch {
             "C01" => fw::$f::<props::c01::C01>($($arg),*),
             "C04" => fw::$f::<props::c04::C04>($($arg),*),
             "C05" => fw::$f::<props::c05::C05>($($arg),*),
+            "C06" => fw::$f::<props::c06::C06>($($arg),*),
             "C17" => fw::$f::<props::c17::C17>($($arg),*),
             "C18" => fw::$f::<props::c18::C18>($($arg),*),
             other => {
